@@ -146,6 +146,14 @@ def make_cases(run, scratch):
             desc = " ".join(parts) + " pu:2"
             cfg = (["filter 13 0"] if keep else []) + ["flags 0"]
             cases.append(("synthetic:%s|%s" % (desc, ";".join(cfg)), cfg + ["src synthetic " + desc], "synthetic-deep"))
+    # one type on several levels (hwloc_get_type_depth must answer MULTIPLE; seeded change C01g), in loads where no level is
+    # merged afterwards (NUMA attached below the root, NUMA as a normal level, Group filtered out) and where one is
+    rep_types = ["l2:2 l2:2 pu:2", "pack:2 [numa] l2:2 l2:2 pu:2", "numa:2 l2:2 l2:2 pu:1", "pack:2 [numa] l1:2 l2:1 l1:2 pu:1",
+                 "group:2 pack:1 group:2 pu:2", "pack:2 [numa] group:2 core:1 group:2 pu:1", "l3:2 [numa] l3:2 l3:1 pu:2",
+                 "pack:2 [numa] l1i:2 l1i:2 pu:1", "numa:2 group:2 group:2 group:2 pu:1"]
+    for desc in rep_types:
+        for cfg in (["flags 0"], ["filter 13 1", "flags 0"], ["filter 13 0", "flags 0"], ["filter all 0", "flags 0"], ["filter 13 2", "filter 6 2", "filter 5 2", "flags 0"]):
+            cases.append(("synthetic:%s|%s" % (desc, ";".join(cfg)), cfg + ["src synthetic " + desc], "synthetic"))
     # richer streams from the other builders' generators: synthetic grammar (typed/untyped, index
     # interleaving, attached memory) and random XML trees (asymmetric, MemCache, Groups, I/O, Misc)
     try:
